@@ -1,0 +1,52 @@
+//go:build verif
+
+// Contracts for package secureservice, checked by /verif (govc). Comment-only.
+package secureservice
+
+// ---------------------------------------------------------------------------------------------
+// C14: credential checking. Signature verification and key decoding are assumed leaves.
+//
+//@ func iface crypto.PubKey.Verify
+//@   pure
+//@   ensures result0 == sigOK(recv, bytestr(arg1), arg2)
+//@ func github.com/anyproto/any-sync/util/crypto.UnmarshalEd25519PublicKeyProto
+//@   pure
+//@   ensures result1 == nil ==> result0 != nil
+// the generated decoder writes only into the message it is called on
+//@ func (*github.com/anyproto/any-sync/net/secureservice/handshake/handshakeproto.PayloadSignedPeerIds).UnmarshalVT
+//@   modifies younger arg0
+//@ package github.com/anyproto/any-sync/net/secureservice
+
+// Identity-verifying checker: success means the peer's version is in our accepted list, the
+// credential is of the signed kind, the account key named in it signed exactly
+// (remote transport peer id ++ our peer id), and the reported identity/version are the checked ones.
+//@ func (*peerSignVerifier).CheckCredential
+//@   requires p != nil && p.account != nil && cred != nil
+//@   ensures [version_accepted]  err == nil ==> (exists k int :: 0 <= k && k < len(p.compatibleVersions) && p.compatibleVersions[k] == cred.Version)
+//@   ensures [signed_kind_only]  err == nil ==> cred.Type == 1
+//@   ensures [identity_proven]   err == nil ==> (exists s Slice :: sigOK(crypto.UnmarshalEd25519PublicKeyProto(result.Identity), remotePeerId + p.account.PeerId, s))
+//@   ensures [version_reported]  err == nil ==> result.ProtoVersion == cred.Version && result.ClientVersion == cred.ClientVersion
+
+// Non-verifying checker: still gates on the version.
+//@ func (noVerifyChecker).CheckCredential
+//@   requires cred != nil
+//@   ensures [version_accepted]  err == nil ==> (exists k int :: 0 <= k && k < len(n.compatibleVersions) && n.compatibleVersions[k] == cred.Version)
+//@   ensures [no_identity]       err == nil ==> len(result.Identity) == 0 && result.ProtoVersion == cred.Version
+
+// MakeCredentials carries our protocol version and the signed-peer-ids kind.
+//@ func iface crypto.PrivKey.Sign
+//@   pure
+//@ func iface crypto.PrivKey.GetPublic
+//@   pure
+//@   ensures result != nil
+//@ func iface crypto.PubKey.Marshall
+//@   pure
+//@ func (*github.com/anyproto/any-sync/net/secureservice/handshake/handshakeproto.PayloadSignedPeerIds).MarshalVT
+//@   modifies nothing
+//@ package github.com/anyproto/any-sync/net/secureservice
+//@ func (*peerSignVerifier).MakeCredentials
+//@   requires p != nil && p.account != nil && p.account.SignKey != nil
+//@   ensures [carries_version] result != nil && result.Version == p.protoVersion && result.ClientVersion == p.clientVersion
+//@   ensures [signed_kind]     result.Type == 1
+//@ func (noVerifyChecker).MakeCredentials
+//@   ensures [is_configured_cred] result == n.cred
